@@ -11,6 +11,7 @@ CONSTANTS
   MaxCells = 9
   MaxMerges = 2
   MaxSheets = 1
+  KindSeq <- KindsAll
   Rots = {1, 6}
   Layouts <- LayStd
 CONSTRAINT Emit
